@@ -38,6 +38,7 @@ const (
 	vpItNext             // Iterator.Next: before loading the successor
 	vpItHelp             // Iterator.Next: current node marked, before helping
 	vpItRefresh          // Iterator.Refresh
+	vpAbR6               // Release: try-lock released, before re-checking the queue
 )
 
 // Exported names of the yield points for harnesses.
@@ -71,6 +72,7 @@ const (
 	VPItNext      = vpItNext
 	VPItHelp      = vpItHelp
 	VPItRefresh   = vpItRefresh
+	VPAbR6        = vpAbR6
 )
 
 // VerifHook is called at every yield point when non-nil. A hook may block
